@@ -17,3 +17,15 @@ impl Opts {
         v.some(key.as_str(), self.target_partitions.to_string());
     }
 }
+
+/// invalid-text-not-defaulted: seeded positive / negative
+pub fn good_transform(value: &str) -> String {
+    if value.parse::<usize>() == Ok(0) { "8".to_string() } else { value.to_string() }
+}
+/// seeded: unparsable text silently becomes the default
+pub fn bad_transform(value: &str) -> String {
+    match value.parse::<usize>().unwrap_or_default() {
+        0 => "8".to_string(),
+        _ => value.to_string(),
+    }
+}
